@@ -86,7 +86,7 @@ Lemma it_next_mi : forall i ctx its s,
   it_next spn run Check i ctx its s
   = (let '(r, its', s') := it_next spn run Emit i ctx its s in (istrip r, its', s')).
 Proof.
-  induction i as [a lo hi|a sep lo hi lead trail|j IHj|f j IHj|f j IHj|a|a lo hi ck|a]; intros ctx its s;
+  induction i as [a lo hi|a sep lo hi lead trail|j IHj|f j IHj|f j IHj|a|a lo hi ck|a|i1 IHi1 i2 IHi2]; intros ctx its s;
     cbn [it_next].
   - destruct its; try reflexivity. rewrite rep_next_mi.
     destruct (rep_next run Emit a lo hi ctx n s) as [[r c'] s']. reflexivity.
@@ -100,10 +100,14 @@ Proof.
   - destruct its; try reflexivity.
     + rewrite rep_next_mi. destruct (rep_next run Emit a lo0 hi0 ctx n s) as [[r c'] s']. reflexivity.
     + rewrite H. run_emit; reflexivity.
-  - destruct its as [| | | | |[l|]]; try reflexivity.
+  - destruct its as [| | | | |[l|]|]; try reflexivity.
     + destruct l; reflexivity.
     + destruct (run Emit a ctx s) as [[v| | |] s1]; try reflexivity.
       destruct (val_items (getv v)); reflexivity.
+  - destruct its as [| | | | | |sa [sb|]]; try reflexivity.
+    + rewrite IHi2. destruct (it_next spn run Emit i2 ctx sb s) as [[r js'] s']. reflexivity.
+    + rewrite IHi1. destruct (it_next spn run Emit i1 ctx sa s) as [[r sa'] s1]. destruct r; try reflexivity.
+      cbn [istrip]. rewrite IHi2. destruct (it_next spn run Emit i2 ctx (mk_iter i2 ctx) s1) as [[r2 sb'] s2]. reflexivity.
 Qed.
 
 (* the driver: same outcome class, same "ended" flag, same number of items, same final state *)
@@ -338,7 +342,7 @@ Proof.
   - (* AndIs *) crush IH.
   - (* Rewind *) crush IH.
   - (* RepUnit *)
-    destruct i as [a lo hi| | | | | | |];
+    destruct i as [a lo hi| | | | | | | |];
       try (match goal with |- context [drive spn (go n) n Check ?i ?ctx ?its ?lim ?pa ?idx ?acc s] =>
              destruct (drive spn (go n) n Check i ctx its lim pa idx acc s) as [[[[] ?] ?] ?]; reflexivity end).
     destruct lo as [|lo]; [destruct hi as [hi|]|];
@@ -389,6 +393,7 @@ Proof.
   - (* WithState *) rewrite HQ. reflexivity.
   - (* Skip *) reflexivity.
   - (* ExtWrap *) crush IH.
+  - (* Prog *) crush IH.
   - (* Padded *) crush IH.
 Qed.
 
